@@ -24,7 +24,7 @@ ASSUMPTIONS = [
     "a Jump op that is elided in the text may keep an entry that points at the statement printed in its place (the source says so); only its line/column being the start of a statement is required",
     "ops grouped into one `if (a || b)` header share the entry of the first branch op",
 ]
-CASES = {"quick": 3200, "thorough": 60000}
+CASES = {"quick": 6400, "thorough": 60000}
 
 FLAG_RE = {
     "flag_CalcBit": r"\S+\[\S+\] = ",
